@@ -376,11 +376,54 @@ class McmcSim:
 
     def wrap_momentum(self, orig):
         def sample_momentum(*a, **k):
+            import torch
+
+            n = self.law_checks.get(("momentum", id(orig)), 0)
+            self.law_checks[("momentum", id(orig))] = n + 1
+            probe = (n < 3 or n % 8 == 0) and len(a) == 1 and not k and isinstance(a[0], torch.Tensor)
+            before = torch.get_rng_state() if probe else None
             p = orig(*a, **k)
             self.cur_p0 = p.detach().clone()
+            if probe:
+                after = torch.get_rng_state()
+                try:
+                    self._momentum_law(orig, a[0], p, before)
+                finally:
+                    torch.set_rng_state(after)  # the run's random stream is left exactly as the real draw left it
             return p
 
         return sample_momentum
+
+    def _momentum_law(self, orig, mass, p, rng_state):
+        """K(r) - K(r') with K = r' M^-1 r / 2 is a Hastings ratio only if the momentum is drawn from
+        N(0, M).  Measured on the sampler itself, with the random stream rewound to where the real
+        draw started: the draw for 4M must be exactly twice the draw for M (any sampler built on a
+        square root of M scales like that; one built on M^-1 halves instead), and for a diagonal M
+        the draw must be sqrt(m_i) times the draw for the identity."""
+        import torch
+
+        try:
+            torch.set_rng_state(rng_state)
+            p4 = orig(mass * 4.0)
+            torch.set_rng_state(rng_state)
+            z = orig(torch.ones_like(mass) if mass.dim() == 1 else torch.eye(mass.shape[0], dtype=mass.dtype))
+        except Exception:  # noqa: BLE001
+            self.probe("momentum_law_abstained")
+            return
+        if p4.shape != p.shape or z.shape != p.shape or not bool(torch.isfinite(p).all()):
+            self.probe("momentum_law_abstained")
+            return
+        self.probe("momentum_law_checked")
+        tol = 1e-9 if p.dtype == torch.float64 else 1e-4
+        scale = 1.0 + p.abs()
+        bad = None
+        if float(((p4 - 2.0 * p).abs() / scale).max()) > tol:
+            bad = "the draw for the mass matrix 4M is not twice the draw for M (first entries %s vs %s)" % (p4.reshape(-1)[:3].tolist(), p.reshape(-1)[:3].tolist())
+        elif mass.dim() == 1 and float(((p - mass.sqrt() * z).abs() / scale).max()) > tol:
+            bad = "for the diagonal mass matrix the draw is not sqrt(m_i) times the draw for the identity (first entries %s, sqrt(m) z = %s)" % (p.reshape(-1)[:3].tolist(), (mass.sqrt() * z).reshape(-1)[:3].tolist())
+        if bad:
+            self.violate("proposal_support", self.cur.op if self.cur is not None else None,
+                         "HMC momentum is not drawn from N(0, M), which the kinetic-energy Hastings ratio presupposes: " + bad, {"what": "momentum_law"})
 
     # -- reference Hastings ratio
     def hr_reference(self, rec):
